@@ -1094,3 +1094,155 @@ func c11PlaceholderOnly(c *Ctx) {
 	})
 	c.Floor(R, "stores into the spec's parameter list", n, 1)
 }
+
+// ---- C17.8 (W2): no lost wake-up — a method that changes state a blocked Read/Write re-checks signals it ----
+
+func c17NoLostWakeup(c *Ctx) {
+	const R = "C17.8"
+	type side struct {
+		typ, signal string
+		waiters     []string // functions that wait (and re-check the predicate under the mutex)
+		// fields the waiter itself writes (or that only matter to the owner goroutine) are excluded automatically
+	}
+	for _, sd := range []side{
+		{"ReceiveStream", "signalRead", []string{"readImpl", "peekImpl"}},
+		{"SendStream", "signalWrite", []string{"write"}},
+	} {
+		tn := c.named("", sd.typ)
+		st := tn.Type().Underlying().(*types.Struct)
+		sig := c.obj("", sd.typ, sd.signal)
+		// P: fields of the stream that the waiters' branch conditions read (the wait predicate re-checked after a wake-up)
+		P := map[*types.Var]bool{}
+		waiterFns := map[*ssa.Function]bool{}
+		isOwn := func(fl *types.Var) bool {
+			for i := 0; i < st.NumFields(); i++ {
+				if st.Field(i).Origin() == fl {
+					return true
+				}
+			}
+			return false
+		}
+		for _, w := range sd.waiters {
+			f := c.fn("", sd.typ, w)
+			for _, g := range c.P.reachStatic([]*ssa.Function{f}, func(pk string) bool { return pk == modPath }) {
+				if g.Signature.Recv() != nil {
+					if n := namedOf(g.Signature.Recv().Type()); n != nil && n.Obj() == tn {
+						waiterFns[g] = true
+					}
+				}
+			}
+			var collect func(v ssa.Value, d int)
+			seen := map[ssa.Value]bool{}
+			collect = func(v ssa.Value, d int) {
+				if v == nil || d > 6 || seen[v] {
+					return
+				}
+				seen[v] = true
+				if fl, _ := loadedField(stripConv(v)); fl != nil && isOwn(fl) {
+					P[fl] = true
+					return
+				}
+				switch x := stripConv(v).(type) {
+				case *ssa.BinOp:
+					collect(x.X, d+1)
+					collect(x.Y, d+1)
+				case *ssa.UnOp:
+					collect(x.X, d+1)
+				case *ssa.Phi:
+					for _, e := range x.Edges {
+						collect(e, d+1)
+					}
+				case *ssa.Call:
+					// a predicate helper on the same receiver: the fields it returns from
+					if sc := x.Call.StaticCallee(); sc != nil && waiterFns[sc] && len(sc.Blocks) <= 4 {
+						eachInstr(sc, func(in ssa.Instruction) {
+							if r, ok := in.(*ssa.Return); ok {
+								for _, rv := range retResults(r) {
+									collect(rv, d+1)
+								}
+							}
+						})
+					}
+					for _, a := range x.Call.Args {
+						collect(a, d+1)
+					}
+				}
+			}
+			for _, b := range f.Blocks {
+				if ifi, ok := b.Instrs[len(b.Instrs)-1].(*ssa.If); ok {
+					collect(ifi.Cond, 0)
+				}
+			}
+		}
+		c.Floor(R, "predicate fields of "+sd.typ, len(P), 5)
+		// writers of P outside the waiters and the constructors
+		n := 0
+		for fl := range P {
+			if typeIs(fl.Type(), "sync", "Mutex") {
+				continue
+			}
+			for _, w := range c.P.Writers(fl) {
+				f := rootFn(w.Fn)
+				if waiterFns[w.Fn] || waiterFns[f] || strings.HasPrefix(f.Name(), "new") {
+					continue
+				}
+				if f.Signature.Recv() == nil {
+					continue
+				}
+				n++
+				key := fmt.Sprintf("wake:%s.%s written in %s", sd.typ, fl.Name(), f.Name())
+				if why, ok := wakeExceptions[sd.typ+"."+fl.Name()+"@"+f.Name()]; ok {
+					c.OK(R, key, c.P.InstrPos(w.Instr), "exception: "+why)
+					continue
+				}
+				// the signal follows the store on every path in this function, or in each direct caller after the call
+				wit := (&Cut{Fn: w.Fn, Start: func(i ssa.Instruction) bool { return i == w.Instr }, Target: isReturn, Barrier: CallsTo(sig), DeferBarrier: true}).Run()
+				ok := wit == nil
+				if !ok {
+					// wrapper pattern: fooImpl stores, its (private, same-receiver) callers signal after the call — up to 3 levels
+					var after func(fn *ssa.Function, depth int) bool
+					after = func(fn *ssa.Function, depth int) bool {
+						obj := funcObj(fn)
+						if obj == nil || depth > 3 {
+							return false
+						}
+						sites := c.P.CallSites(obj)
+						if len(sites) == 0 {
+							return false
+						}
+						for _, cs := range sites {
+							cs := cs
+							if cs.Kind == "value" {
+								return false
+							}
+							if (&Cut{Fn: cs.Fn, Start: func(i ssa.Instruction) bool { return i == cs.Instr }, Target: isReturn, Barrier: CallsTo(sig), DeferBarrier: true}).Run() == nil {
+								continue
+							}
+							if waiterFns[cs.Fn] || waiterFns[rootFn(cs.Fn)] {
+								continue // the waiter itself re-checks
+							}
+							if !after(rootFn(cs.Fn), depth+1) {
+								return false
+							}
+						}
+						return true
+					}
+					ok = after(f, 0)
+				}
+				c.Check(ok, R, key, c.P.InstrPos(w.Instr), "a blocked "+map[string]string{"ReceiveStream": "Read", "SendStream": "Write"}[sd.typ]+" re-checks this field only when it is woken: the writer must call "+sd.signal+"() on every path after the store")
+			}
+		}
+		c.Floor(R, "writes of predicate fields of "+sd.typ+" outside the waiter", n, 5)
+	}
+}
+
+// wakeExceptions: writes of a predicate field that need no wake-up, with the reason.
+var wakeExceptions = map[string]string{
+	"ReceiveStream.finalOffset@handleStreamFrameImpl":      "set from a FIN frame; the same call then queues the frame and signals (Push → signalRead); the paths without a signal are the error return and the locally-cancelled stream, whose reader already returned",
+	"ReceiveStream.finalOffset@handleResetStreamFrameImpl": "the reset path signals when it records the remote cancellation; duplicate resets and resets after a local CancelRead change nothing a blocked Read waits for",
+	"ReceiveStream.reliableSize@handleResetStreamFrameImpl": "same as finalOffset: the paths that matter to a blocked Read end in signalRead; the others are duplicates / locally cancelled streams",
+	"ReceiveStream.cancelledLocally@cancelReadImpl":        "cancelReadImpl signals on the path that queues STOP_SENDING; the early returns are the cases where the error was already read or the peer reset the stream (Read is not blocked any more)",
+	"SendStream.finishedWriting@Close":                     "documented contract: Close must not be called concurrently with Write, so no Write is blocked",
+	"SendStream.nextFrame@popNewStreamFrame":               "signals exactly when the buffered frame was popped completely (then a blocked Write may buffer again); a partially popped frame leaves a remainder and the packer is called again (onHasStreamData), which pops it and signals",
+	"SendStream.dataForWriting@getDataForWriting":          "signals when all data was taken or when the remainder became bufferable (canBufferStreamFrame); otherwise the writer's condition is still false and the packer will be back (hasMoreData)",
+}
